@@ -124,8 +124,8 @@ def job(j):
                 base = baseline(entry)
                 if json.dumps(resp, sort_keys=True, default=repr) != json.dumps(base, sort_keys=True, default=repr):
                     mm.append("response differs from a fresh uncached engine's: %r vs %r" % (resp, base))
-                if mm and len(st["viol"]) < 50:
-                    st["viol"].append(({"kind": "cache-mismatch", "config": cfg, "cache": name, "cls": entry["cls"], "first": mm[0][:140]},
+                if mm and len(st["viol"]) < 400:
+                    genrun.add_viol(st["viol"], ({"kind": "cache-mismatch", "config": cfg, "cache": name, "cls": entry["cls"], "first": mm[0][:140]},
                                        {"sequence": rec["log"], "position": pos, "mismatches": mm, "response": resp}))
         if len(st["samples"]) < 1 and len(set(keys)) < len(keys) and any(e["evicted"] for e in rec["log"]):
             st["samples"].append({"capacity": rec["capacity"], "sequence": [
